@@ -30,7 +30,7 @@ ASSUMPTIONS = [
     "symbolic program alive at a time so that they test what the property states rather than F7",
 ]
 REQUIRED_LABELS = {"all": ["free", "measured", "decomposed_symbolic", "optimised_symbolic", "remeasure", "use_before_measure", "unbound", "unknown_name",
-                           "target:gaussian_unitary", "target:bosonic", "fn:atan2", "two_segments", "optimised_measured"]}
+                           "target:gaussian_unitary", "target:bosonic", "fn:atan2", "two_segments", "optimised_measured", "multi_mode_measurement", "error_then_rerun_dagger"]}
 
 FAMS = ["Dgate", "Sgate", "Rgate", "BSgate", "S2gate", "MZgate", "Xgate", "Zgate", "Pgate", "CXgate", "CZgate", "LossChannel", "ThermalLossChannel",
         "Coherent", "Squeezed", "DisplacedSqueezed", "Thermal", "sMZgate"]
@@ -446,8 +446,8 @@ def check_meas(ctx, case):
 # ---------------------------------------------------------------------------------------------
 @st.composite
 def err_case(draw):
-    return {"kind": draw(st.sampled_from(["unbound", "unknown_name", "unknown_object", "partial"])), "fam": draw(st.sampled_from(["Rgate", "Sgate", "Xgate", "BSgate", "LossChannel"])),
-            "value": draw(gen.fl(0.1, 0.9)), "compile": draw(st.sampled_from([None, "gaussian", "bosonic"]))}
+    return {"kind": draw(st.sampled_from(["unbound", "unknown_name", "unknown_object", "partial"])), "fam": draw(st.sampled_from(["Rgate", "Sgate", "Xgate", "BSgate", "LossChannel", "Dgate"])),
+            "value": draw(gen.fl(0.1, 0.9)), "compile": draw(st.sampled_from([None, "gaussian", "bosonic"])), "dagger": draw(st.booleans())}
 
 
 def check_err(ctx, case):
@@ -460,11 +460,16 @@ def check_err(ctx, case):
     kind, fam = case["kind"], case["fam"]
     prog = sf.Program(2)
     a, b = prog.params("a", "b")
+    dag = bool(case.get("dagger")) and fam != "LossChannel"
     with prog.context as q:
-        op = getattr(ops, fam)(a) if fam != "BSgate" else ops.BSgate(a, b)
+        ops.Squeezed(0.3, 0.4) | q[0]
+        ops.Coherent(0.5, 0.2) | q[1]
+        op = ops.BSgate(a, b) if fam == "BSgate" else (ops.Dgate(a, 0.3) if fam == "Dgate" else (ops.Sgate(a, 0.3) if fam == "Sgate" else getattr(ops, fam)(a)))
+        if dag:
+            op = op.H
         op | ((q[0], q[1]) if fam == "BSgate" else q[0])
         ops.Rgate(b) | q[1]
-    labels = [("unbound" if kind in ("unbound", "partial") else "unknown_name")]
+    labels = [("unbound" if kind in ("unbound", "partial") else "unknown_name")] + (["error_then_rerun_dagger"] if dag else [])
     ctx.note(case, nontrivial=True, labels=labels)
     args = {"unbound": None, "partial": {"a": case["value"]}, "unknown_name": {"a": case["value"], "b": 0.1, "zz": 1.0},
             "unknown_object": {"a": case["value"], "b": 0.1, FreeParameter("other"): 1.0}}[kind]
@@ -474,6 +479,21 @@ def check_err(ctx, case):
             run_prog = prog if case["compile"] is None else prog.compile(compiler=case["compile"])
             res = sf.Engine("gaussian" if case["compile"] != "bosonic" else "bosonic").run(run_prog, args=args)
         except ParameterError:
+            # the refused run must leave the program usable: with every parameter bound it computes what its numeric twin computes
+            be = "gaussian" if case["compile"] != "bosonic" else "bosonic"
+            try:
+                res2 = sf.Engine(be).run(run_prog, args={"a": case["value"], "b": 0.1})
+            except Exception as exc:  # pylint: disable=broad-except
+                return ctx.crash(exc, "errors.rerun_after_parameter_error")
+            v = case["value"]
+            tw = [["Squeezed", [0.3, 0.4], [0], {}], ["Coherent", [0.5, 0.2], [1], {}],
+                  [fam, [v, 0.1] if fam == "BSgate" else ([v, 0.3] if fam in ("Dgate", "Sgate") else [v]), [0, 1] if fam == "BSgate" else [0], {"H": True} if dag else {}],
+                  ["Rgate", [0.1], [1], {}]]
+            ref = spec.ref_run(2, tw, 2.0)
+            mu, V, _ = sfrun.moments_of(res2.state, be, 2.0)
+            d = max(float(np.max(np.abs(mu - ref.mu))), float(np.max(np.abs(V - ref.V))))
+            if d > 1e-7 * (1 + float(np.max(np.abs(ref.V)))):
+                return ctx.fail("errors.program_changed_by_refused_run", "after a run refused with ParameterError the same program, run with all parameters bound, differs from its numeric twin by %.3g (%s%s)" % (d, fam, ".H" if dag else ""))
             return None
         except Exception as exc:  # pylint: disable=broad-except
             return ctx.fail("errors.%s.wrong_exception.%s" % (kind, type(exc).__name__), "expected ParameterError, got %s: %s" % (type(exc).__name__, str(exc)[:120]))
@@ -535,11 +555,67 @@ def check_iso(ctx, case):
         return None
 
 
+# ---------------------------------------------------------------------------------------------
+# several modes measured by ONE command, in any listed order, then used as parameters
+# ---------------------------------------------------------------------------------------------
+@st.composite
+def mm_case(draw):
+    n = draw(st.sampled_from([3, 3, 4]))
+    k = draw(st.integers(2, n - 1))
+    modes = list(draw(st.permutations(list(range(n))))[:k])
+    nums = list(draw(st.permutations([0, 1, 2, 3][:max(k, 3)]))[:n]) + [0] * n
+    nums = nums[:n]
+    rest = [m for m in range(n) if m not in modes]
+    uses = [[draw(st.sampled_from(modes)), draw(st.sampled_from([0.05, 0.08, 0.11]))] for _ in range(draw(st.integers(1, 2)))]
+    return {"n": n, "modes": modes, "nums": nums, "target": draw(st.sampled_from(rest)), "uses": uses, "kind": "MeasureFock",  # (MeasureThreshold is not accepted by the fock compiler)
+            "pure": draw(st.booleans())}
+
+
+def check_mm(ctx, case):
+    """Fock inputs make the outcomes deterministic: q[m].par must be the outcome of mode m whatever the order in which the modes were listed"""
+    import warnings
+
+    import strawberryfields as sf
+    from strawberryfields import ops
+
+    n, modes, nums, tgt = case["n"], case["modes"], case["nums"], case["target"]
+    labels = ["measured", "multi_mode_measurement", "type:" + case["kind"]] + (["unsorted_measured_modes"] if modes != sorted(modes) else [])
+    ctx.note(case, nontrivial=True, labels=labels)
+    val = (lambda m: nums[m]) if case["kind"] == "MeasureFock" else (lambda m: int(nums[m] > 0))
+    with warnings.catch_warnings():
+        warnings.simplefilter("ignore")
+        try:
+            prog = sf.Program(n)
+            with prog.context as q:
+                for m in range(n):
+                    if m != tgt:
+                        ops.Fock(nums[m]) | q[m]
+                getattr(ops, case["kind"])() | tuple(q[m] for m in modes)
+                for src, c in case["uses"]:
+                    ops.Dgate(c * q[src].par, 0.0) | q[tgt]
+            np.random.seed(2)
+            res = sf.Engine("fock", backend_options={"cutoff_dim": 6, "pure": case["pure"]}).run(prog)
+        except Exception as exc:  # pylint: disable=broad-except
+            return ctx.crash(exc, "measured_multi")
+    want = sum(c * val(src) for src, c in case["uses"])
+    got = res.state.quad_expectation(tgt, 0.0)[0] / 2.0  # hbar = 2: <x> = 2 Re(alpha)
+    for m in modes:
+        v = res.samples_dict.get(m)
+        if v is None or int(np.ravel(v[-1])[0]) != val(m):
+            return ctx.fail("measured_multi.samples_dict", "samples_dict[%d] = %r, the (deterministic) outcome of that mode is %d" % (m, v, val(m)))
+    if abs(got - want) > 5e-3:
+        return ctx.fail("measured_multi.wrong_value_used", "%s on modes %s (Fock inputs %s): Dgate(sum c q[src].par) gave amplitude %.4f, the outcomes imply %.4f (uses %s)" % (
+            case["kind"], modes, [nums[m] for m in modes], got, want, case["uses"]))
+    return None
+
+
 SUBS = [
     Sub("substitution", check=check_sub, strategy=lambda ctx: sub_case(), examples={"quick": 500, "thorough": 5000}, shards={"quick": 3, "thorough": 16},
         rule="expression trees over free parameters on every Gaussian family, all compile targets, optimize on/off, bind by name/object, before/after compile"),
     Sub("measured", check=check_meas, strategy=lambda ctx: meas_case(), examples={"quick": 500, "thorough": 5000}, shards={"quick": 1, "thorough": 16},
         rule="measure / use / re-prepare / re-measure histories with select: most recent outcome; use before measurement raises"),
+    Sub("measured_multi", check=check_mm, strategy=lambda ctx: mm_case(), examples={"quick": 120, "thorough": 1500}, shards={"quick": 1, "thorough": 8},
+        rule="one MeasureFock / MeasureThreshold on 2..3 modes listed in any order (Fock inputs: deterministic outcomes), then gates using q[m].par: fock backend"),
     Sub("errors", check=check_err, strategy=lambda ctx: err_case(), examples={"quick": 150, "thorough": 600}, shards={"quick": 1, "thorough": 2},
         rule="unbound / partially bound / unknown parameters raise ParameterError"),
     Sub("isolation", check=check_iso, strategy=lambda ctx: iso_case(), examples={"quick": 20, "thorough": 100}, shards={"quick": 1, "thorough": 1},
